@@ -8,7 +8,7 @@ import GdVerif.Props.C07_theship
   only *tried*), followed by the conversion, which *requires* both sections.  The theorems of
   `Props/C10_valve_whole.lean` therefore carry over through the conversion: same plans, same scripts
   (`Spec/ValveFaults.lean`, on `TheShip.Spec.shipConfig cfg`), any number of challenge rounds, split replies in any
-  arrival order.
+  arrival order — and failed attempts that still receive some of the fragments of a split reply before the silence.
 
   What this makes explicit (see `C10_theship_section_exhausted`): when all `retries + 1` attempts of the players or of
   the rules unit time out, the Valve query — per C11 — returns a response with that section absent, and the conversion
@@ -58,13 +58,17 @@ theorem C10_theship_query_recovers (ext : Ext) (port retries : Nat) (cfg : Confi
     (har : ar.Perm (rulesDatagrams (TheShip.Spec.shipConfig cfg) st))
     (hfit : fits (scriptAs (TheShip.Spec.shipConfig cfg) ai ap ar) = true)
     (fi fp fr : List Attempt) (hki : fi.length ≤ retries) (hkp : fp.length ≤ retries) (hkr : fr.length ≤ retries)
+    (hwi : ∀ a ∈ fi, a.wf (infoDatagrams (TheShip.Spec.shipConfig cfg) st) = true)
+    (hwp : ∀ a ∈ fp, a.wf (playersDatagrams (TheShip.Spec.shipConfig cfg) st) = true)
+    (hwr : ∀ a ∈ fr, a.wf (rulesDatagrams (TheShip.Spec.shipConfig cfg) st) = true)
     (restQ : List Delivery) (restF : List Bool) :
     (TheShip.query ext port retries (Net.init
         [.opened (faultyScript (TheShip.Spec.shipConfig cfg) ⟨⟨fi, .valid⟩, ⟨fp, .valid⟩, ⟨fr, .valid⟩⟩ ai ap ar ++ restQ)]
         (faultyFaults (TheShip.Spec.shipConfig cfg) ⟨⟨fi, .valid⟩, ⟨fp, .valid⟩, ⟨fr, .valid⟩⟩ ++ restF))).1
       = TheShip.Spec.expected st := by
-  have hplan : wfPlan retries (TheShip.Spec.shipConfig cfg) ⟨⟨fi, .valid⟩, ⟨fp, .valid⟩, ⟨fr, .valid⟩⟩ = true := by
-    simp [wfPlan, wfUnit, hki, hkp, hkr]
+  have hplan : wfPlan retries (TheShip.Spec.shipConfig cfg) st ⟨⟨fi, .valid⟩, ⟨fp, .valid⟩, ⟨fr, .valid⟩⟩ = true := by
+    simp only [wfPlan, wfUnit, Bool.and_eq_true, Bool.or_eq_true, decide_eq_true_eq, List.all_eq_true]
+    exact ⟨⟨⟨hwi, hki⟩, Or.inr ⟨hwp, hkp⟩⟩, Or.inr ⟨hwr, hkr⟩⟩
   rw [(C10_theship_query_faulty ext port retries cfg st hwf hx hdec ai ap ar hai hap har hfit _
     (wfPlanReached_of_wfPlan _ _ st _ hplan) restQ restF).1,
     faultyExpected_recovers _ st _ (fun u _ => by cases u <;> rfl)]
@@ -79,7 +83,9 @@ theorem C10_theship_info_exhausted (ext : Ext) (port retries : Nat) (cfg : Confi
     (hap : ap.Perm (playersDatagrams (TheShip.Spec.shipConfig cfg) st))
     (har : ar.Perm (rulesDatagrams (TheShip.Spec.shipConfig cfg) st))
     (hfit : fits (scriptAs (TheShip.Spec.shipConfig cfg) ai ap ar) = true)
-    (fi : List Attempt) (hki : fi.length = retries + 1) (pp pr : UnitPlan) (restQ : List Delivery) (restF : List Bool) :
+    (fi : List Attempt) (hki : fi.length = retries + 1)
+    (hwi : ∀ a ∈ fi, a.wf (infoDatagrams (TheShip.Spec.shipConfig cfg) st) = true) (pp pr : UnitPlan)
+    (restQ : List Delivery) (restF : List Bool) :
     let plan : Plan := ⟨⟨fi, .gaveUp⟩, pp, pr⟩
     let out := TheShip.query ext port retries (Net.init
         [.opened (faultyScript (TheShip.Spec.shipConfig cfg) plan ai ap ar ++ restQ)]
@@ -92,7 +98,8 @@ theorem C10_theship_info_exhausted (ext : Ext) (port retries : Nat) (cfg : Confi
     (fun v hv _ => by
       have : v = .info := by simpa [earlier] using hv
       subst this
-      simp [plan, Plan.unit, wfUnit, hki]) hu rfl
+      simp only [plan, Plan.unit, wfUnit, poolOf, Bool.and_eq_true, List.all_eq_true, beq_iff_eq]
+      exact ⟨hwi, hki⟩) hu rfl
   obtain ⟨h1, h2⟩ := C10_theship_query_faulty ext port retries cfg st hwf hx hdec ai ap ar hai hap har hfit plan hplan
     restQ restF
   rw [faultyExpected_stops _ st plan .info _ (fun v hv => by simp [earlier] at hv) hu rfl (fun h => absurd rfl h)] at h1
@@ -114,7 +121,7 @@ theorem C10_theship_section_exhausted (ext : Ext) (port retries : Nat) (cfg : Co
     (hap : ap.Perm (playersDatagrams (TheShip.Spec.shipConfig cfg) st))
     (har : ar.Perm (rulesDatagrams (TheShip.Spec.shipConfig cfg) st))
     (hfit : fits (scriptAs (TheShip.Spec.shipConfig cfg) ai ap ar) = true)
-    (plan : Plan) (hplan : wfPlan retries (TheShip.Spec.shipConfig cfg) plan = true) (u : Request) (hu0 : u ≠ .info)
+    (plan : Plan) (hplan : wfPlan retries (TheShip.Spec.shipConfig cfg) st plan = true) (u : Request) (hu0 : u ≠ .info)
     (hothers : ∀ v, v ≠ u → (plan.unit v).ending = .valid) (hu : (plan.unit u).ending ≠ .valid)
     (happ : st.info.appid = 2400) (restQ : List Delivery) (restF : List Bool) :
     (TheShip.query ext port retries (Net.init
@@ -150,11 +157,16 @@ def C10_theship_demoState : State :=
 def C10_theship_demoCfg : Config :=
   ⟨.source none, ⟨.skip, .skip, false⟩, false, [], ⟨[], .single⟩, ⟨[[1, 2, 3, 4]], .single⟩, ⟨[], .sourceSplit 5 [4]⟩⟩
 
+/-- the first of the two fragments of the rules reply (`sourceSplit 5 [4]`) -/
+def C10_theship_demoGot : List Bytes :=
+  (rulesDatagrams (TheShip.Spec.shipConfig C10_theship_demoCfg) C10_theship_demoState).take 1
+
 /-- both attempts of the players unit are lost: once at the initial request, once after the challenge round -/
-def C10_theship_demoPlan : Plan := ⟨⟨[], .valid⟩, ⟨[⟨0, false⟩, ⟨1, false⟩], .gaveUp⟩, ⟨[], .valid⟩⟩
+def C10_theship_demoPlan : Plan := ⟨⟨[], .valid⟩, ⟨[⟨0, false, []⟩, ⟨1, false, []⟩], .gaveUp⟩, ⟨[], .valid⟩⟩
 
 -- the hypotheses of `C10_theship_section_exhausted` hold for it: the game's query answers PacketBad; with at most one
--- failure per unit it answers the state
+-- failure per unit — the failed attempt of the rules unit having received the first of the two fragments of the reply
+-- before the silence — it answers the state
 example (ext : Ext) (port : Nat) :
     (TheShip.query ext port 1 (Net.init
         [.opened (faultyScript (TheShip.Spec.shipConfig C10_theship_demoCfg) C10_theship_demoPlan
@@ -164,12 +176,12 @@ example (ext : Ext) (port : Nat) :
         (faultyFaults (TheShip.Spec.shipConfig C10_theship_demoCfg) C10_theship_demoPlan ++ []))).1 = .err .packetBad
     ∧ (TheShip.query ext port 1 (Net.init
         [.opened (faultyScript (TheShip.Spec.shipConfig C10_theship_demoCfg)
-          ⟨⟨[⟨0, true⟩], .valid⟩, ⟨[⟨1, false⟩], .valid⟩, ⟨[⟨0, false⟩], .valid⟩⟩
+          ⟨⟨[⟨0, true, []⟩], .valid⟩, ⟨[⟨1, false, []⟩], .valid⟩, ⟨[⟨0, false, C10_theship_demoGot⟩], .valid⟩⟩
           (infoDatagrams (TheShip.Spec.shipConfig C10_theship_demoCfg) C10_theship_demoState)
           (playersDatagrams (TheShip.Spec.shipConfig C10_theship_demoCfg) C10_theship_demoState)
           (rulesDatagrams (TheShip.Spec.shipConfig C10_theship_demoCfg) C10_theship_demoState) ++ [])]
         (faultyFaults (TheShip.Spec.shipConfig C10_theship_demoCfg)
-          ⟨⟨[⟨0, true⟩], .valid⟩, ⟨[⟨1, false⟩], .valid⟩, ⟨[⟨0, false⟩], .valid⟩⟩ ++ []))).1
+          ⟨⟨[⟨0, true, []⟩], .valid⟩, ⟨[⟨1, false, []⟩], .valid⟩, ⟨[⟨0, false, C10_theship_demoGot⟩], .valid⟩⟩ ++ []))).1
       = TheShip.Spec.expected C10_theship_demoState := by
   constructor
   · exact C10_theship_section_exhausted ext port 1 C10_theship_demoCfg C10_theship_demoState (by decide) (by decide)
@@ -178,4 +190,5 @@ example (ext : Ext) (port : Nat) :
       (fun v hv => by cases v <;> first | rfl | exact absurd rfl hv) (by decide) rfl [] []
   · exact C10_theship_query_recovers ext port 1 C10_theship_demoCfg C10_theship_demoState (by decide) (by decide)
       (decodersAgree_of_uncompressed ext _ _ (by decide)) _ _ _ (List.Perm.refl _) (List.Perm.refl _) (List.Perm.refl _)
-      (by decide) [⟨0, true⟩] [⟨1, false⟩] [⟨0, false⟩] (by decide) (by decide) (by decide) [] []
+      (by decide) [⟨0, true, []⟩] [⟨1, false, []⟩] [⟨0, false, C10_theship_demoGot⟩] (by decide) (by decide) (by decide)
+      (by decide) (by decide) (by decide) [] []
